@@ -58,7 +58,7 @@ CLAIMED = {
         category='model_checking',
         text='For every symbolic path of every component setter (four owned RI types; None/Some), the MARKED result language — other components keep the markers of the original decomposition, the edited '
              'component\'s markers surround the written value, a shield literal is counted to the path — is included in det(M_O) with all ten component markers. M_O is unambiguous, so for ALL buffers and arguments: '
-             'the component reads back as requested (presence/absence included; shield·value for the path), every other component reads back byte-identical, shields are only the documented "/", "/.", "./". ',
+             'the component reads back as requested (presence/absence included; shield·value for the path), every other component reads back byte-identical (a boundary marker of another component inside the removed range survives without its text and breaks the inclusion: nothing but the target is removed), shields are only the documented "/", "/.", "./". ',
         design_ref='DESIGN.md §3 Engine D (D3), Appendix B, §4 C05',
         note='Relies on C02 (scanner ranges = specification spans) and on the splice summaries of utils::replace/allocate_range. Exactness of the shield CONDITIONS is decided through the read-back inclusion '
              '(an unnecessary shield changes the path that is read back only in the documented form; a missing one makes the inclusion fail). Genuine defect F6 repaired (see C04).',
@@ -98,9 +98,9 @@ CLAIMED = {
              'the code may look at the stack only through last(); the result is the stack in order; segments() yields the segments in order (C12) — so normalized_segments() is the specified sequence, by induction. '
              '(b) The in-place rewrite: its collecting loop appends "/" exactly before every segment but the first and then exactly that segment\'s bytes (every CFG path of one iteration), so the text written is shield ++ join(sequence, "/"); '
              'over ALL buffers the result is a valid value of the same type, its decomposition is "path = rewritten window, every other component unchanged" (marked-language inclusion), absolute stays absolute and relative stays relative, '
-             'the "./" shield is written exactly in the documented cases, window accounting and exact tiling hold; all entry points (normalize, Path ==/cmp/hash) go through the one normalising iterator.',
-        design_ref='DESIGN.md §3 Engine D (D1–D3), §4 C09, §10.13',
-        note='NOT decided: the rendering of the normalized() COPY (symbolic_push + trailing "/" of a final dot segment), idempotence as an equality of values, the spill paths of the inline buffers. The induction step '
+             'the "./" shield is written exactly in the documented cases, window accounting and exact tiling hold; all entry points (normalize, Path ==/cmp/hash) go through the one normalising iterator. (c) The normalised COPY (PathImpl::normalized) is the same kind of fold: it starts from the EMPTY path of the kind of self (path-sensitive rule on the is_absolute test), hands every item of segments() of self, in order, to symbolic_push on the buffer it returns (loop or Iterator::fold form), keeps the flag of the LAST step, and pushes the EMPTY segment exactly under "flag and the buffer is not empty"; the step, symbolic_push, is executed over all segment strings by Engine S ("." nothing/true, ".." one pop/true, other one push of that segment/false).',
+        design_ref='DESIGN.md §3 Engine D (D1–D3), §4 C09, §10.13, §10.15',
+        note='NOT decided: that the copy and the iterator agree as VALUES (their steps agree case by case; the composition with the list semantics of push/pop under C10 is an argument, not a check), idempotence as an equality of values, the spill paths of the inline buffers. The induction step '
              '(fold = specification when the steps agree) is the usual one and is not mechanised. Genuine defect F5 (no shield in normalize) was repaired by a fix: commit.',
         technique='scanner-style abstract execution of one loop iteration x class automaton (fold step) + per-iteration CFG rule (join) + path-sensitive effect analysis with regular language closure (static analysis)',
         engine='S+D+A',
@@ -139,9 +139,9 @@ CLAIMED = {
              'absolute and relative paths): it returns the segment starting at the nearest start below the offset, None at the first; no out-of-bounds index, termination; '
              '(wiring, MIR shape rules on every CFG path) segments() = Empty iff is_empty() else NonEmpty{self, first_segment_offset(), len+1}; next()/next_back() return None without touching a cursor, or — only under '
              'offset < back_offset — apply the step to (path, own cursor), store the returned offset into that cursor only and return the returned segment; is_absolute() and is_empty() are decided as predicates over all byte strings by Engine S (true exactly on texts starting with "/" resp. on "" and "/"), first_segment_offset is 1 iff is_absolute(); '
-             'first(), last(), file_name(), segment_count() are the corresponding steps. The induction over interleavings (DESIGN.md §10.7) is a short pen-and-paper argument over these mechanically checked facts.',
+             'first(), last(), file_name(), segment_count() are the corresponding steps; parent() is executed abstractly in mirror mode against spec/segments.abnf parent-text (None for "", "/" and a single relative segment, the root for "/x", "/./" for "//x", otherwise the text before the LAST "/"), parent_or_empty() = parent() or the empty path of the same kind (Engine S with parent() and the kind answering every way). The induction over interleavings (DESIGN.md §10.7) is a short pen-and-paper argument over these mechanically checked facts.',
         design_ref='DESIGN.md §10.7',
-        note='NOT decided: parent / parent_or_empty (directory is covered under C16), normalized_segments().len() (the normalised sequence, as in C09), and the mechanisation of the induction step itself. '
+        note='NOT decided: normalized_segments().len() (the normalised sequence, as in C09), and the mechanisation of the induction step itself. '
              'Trusted: Engine S summaries of slice indexing/len; C01 (no "?"/"#" inside a valid path).',
         technique='abstract interpretation of scanner MIR in product with a specification automaton (parametric-start and reversed-text modes) + MIR shape rules on all CFG paths (static analysis)',
         engine='S+C',
@@ -179,8 +179,8 @@ CLAIMED = {
              'every later call on self is a frame-preserving mutator (C05/C09 frame keeps the scheme) and no set_scheme(None) is reachable, so the unchecked re-typing of the result as Uri/Iri '
              'is justified (with C13: reference ∩ has-scheme = full, and C04: mutators preserve validity); ordering: on every CFG path all calls that change which of scheme/authority is present precede every write of the path (the disambiguating shield is decided in the final context); '
              'RFC 3986 5.2.2 case analysis: every CFG path is walked with a path-sensitive evaluation of its guards, the treatment of the path (keep the base path / normalise the own path / merge) is read off its calls, and the language of reference paths '
-             'reaching each treatment is compared by automata equality with the RFC table (keep iff path = "", own iff it starts with "/", merge otherwise; own when the reference has a scheme or authority); the base is only read; URI and IRI twins agree.',
-        design_ref='DESIGN.md §4 C06',
+             'reaching each treatment is compared by automata equality with the RFC table (keep iff path = "", own iff it starts with "/", merge otherwise; own when the reference has a scheme or authority); merge sub-rule (RFC 3986 5.2.3) on every merging CFG path, with terms restricted to the definitions of that path: the merge buffer starts from "/" only where the base is established to have an authority AND an empty path, from parent_or_empty() of the base path only where that case is excluded; exactly the segments() of the reference path are appended to THAT buffer (symbolic_append, whose meaning C10 decides) and its path becomes the result path; the base is only read; URI and IRI twins agree.',
+        design_ref='DESIGN.md §4 C06, §10.9, §10.15',
         note='NOT decided: that the text written on each path equals the RFC 3986 §5.2.2 result (merge + remove_dot_segments over run-time segment lists), nor idempotence; those quantify over run-time values.',
         technique='instance-graph reachability + CFG path enumeration (typestate) + sibling agreement (static analysis)',
         engine='C',
